@@ -342,7 +342,7 @@ def families(tier):
         # A1: advection + dispersion + diffusion, one diffusion coefficient: exact shift (disp = D = 0) + convexity (all)
         fam.append(("advective TRANSPORT, single D", P(
             "TR", n=[1, 2, 3, 5], len=["equal", "growing"], disp=[0.0, 0.1, 2.0], D_dt=DDT, shifts=[3], dir=["forward", "back"], bc=BC3,
-            stag=[0, 1], pat=["uniform", "alt"], inflow=[0, 1], mode=["plain"])))
+            stag=[0, 1], pat=["uniform", "alt"], inflow=[0], mode=["plain"])))
         # A2: ADVECTION keyword (no solid: exact shift; solids: balance)
         fam.append(("ADVECTION keyword", P(
             "ADV", n=N, shifts=[1, 2, 3], dt=[1e3], dir=["forward"], pat=PATTERNS, inflow=[0, 1], solid=["none", "exchange", "calcite"])))
